@@ -78,4 +78,14 @@ def hoistable(xs: list[fp.Real]):
 def chain(x: fp.Real):
     return hyp(x, sq(x))
 
-ALL = [hyp, ctx_caller, mutating_caller, name_clash_caller, call_in_loop, arg_order, nested_with_caller, hoistable, chain]
+@fp.fpy
+def call_in_comprehension(xs: list[fp.Real], ys: list[fp.Real]):
+    l = [bump(xs, 1) for c in ys]
+    return (l, xs)
+
+@fp.fpy
+def call_in_ifexpr(xs: list[fp.Real], a: fp.Real):
+    t = bump(xs, 1) if a > 0 else a
+    return (t, xs)
+
+ALL = [call_in_comprehension, call_in_ifexpr, hyp, ctx_caller, mutating_caller, name_clash_caller, call_in_loop, arg_order, nested_with_caller, hoistable, chain]
